@@ -238,6 +238,9 @@ func run1(t *testing.T, c Case) (res Result) {
 				}
 			}
 			w.Header().Set("X-Stub", "1")
+			// the application has cookies of its own (a session), two of them: the proxy's cookie comes on top
+			w.Header().Add("Set-Cookie", "session=abc; Path=/")
+			w.Header().Add("Set-Cookie", "theme=dark; Path=/")
 			w.WriteHeader(200)
 			_, _ = w.Write([]byte("stub-ok"))
 		})}
@@ -374,11 +377,18 @@ func run1(t *testing.T, c Case) (res Result) {
 					viol("C19/write-not-served-on-primary", "a write on the primary was not forwarded to the application (status %d)", resp.StatusCode)
 				}
 				var cookieTX uint64
+				own := 0
 				for _, ck := range resp.Cookies() {
 					if ck.Name == lfshttp.TXIDCookieName {
 						v, _ := ltx.ParseTXID(ck.Value)
 						cookieTX = uint64(v)
 					}
+					if ck.Name == "session" || ck.Name == "theme" {
+						own++
+					}
+				}
+				if len(reached) == 1 && resp.StatusCode == 200 && own != 2 {
+					viol("C19/application-cookie-lost", "the application set two cookies of its own, the response carries %d of them", own)
 				}
 				if !isRead && c.Tracked == "" { // with the tracked database at position 0 the stub's write goes to another database: no position to name
 					if cookieTX == 0 {
